@@ -354,7 +354,7 @@ theorem runM_attemptE {α : Type} (m : M α) (st : St) :
     decides the result (error: the call fails with it; otherwise the object). -/
 theorem new_runs_init_once (runInit : Nat → List Val → M Val) (tr id : Nat) (rest : List Val) (st s1 : St)
     (r0 : Val) (err : Option Sig)
-    (hadd : runM (addSuperClasses 200 st.maps.size tr) { st with maps := st.maps.push [] } = (.ok (r0, err), s1))
+    (hadd : runM (addSuperClasses 200 st.maps.size [] tr) { st with maps := st.maps.push [] } = (.ok (r0, err), s1))
     (hinit : mapLookup (s1.entries st.maps.size) (.str initName) = some (.func id)) :
     runM (newB runInit (.map tr :: rest)) st =
       match runM (runInit id rest) s1 with
@@ -477,30 +477,33 @@ theorem copyProps_filling (st0 : St) (obj : Nat) (h0 : st0.backing 0 = []) (hsz 
       | error e => simp at h
       | ok nv => exact ih _ r s1 s' (copyProp_filling st0 obj h0 hsz initSuper k w nv s s1 hf hc) h
 
-/-- `key` is a string key of template `tr` or of a super template reachable from it within `f` levels (read in the
-    state `st0` in which `new` started; templates are cells other than the fresh object) -/
-inductive TKey (st0 : St) (obj : Nat) : Nat → Nat → List Nat → Prop
-  | own (f tr : Nat) (key : List Nat) (v : Val) : tr ≠ obj → (Val.str key, v) ∈ st0.entries tr → TKey st0 obj (f + 1) tr key
-  | sup (f tr r l sr : Nat) (key : List Nat) : tr ≠ obj →
+/-- `key` is a string key of template `tr` or of a super template reachable from it within `f` levels along a path
+    that does not revisit a template (`path` = the templates being processed; a template that is its own super is cut
+    there, as `addSuperClassesOnPath` does); read in the state `st0` in which `new` started; templates are cells other
+    than the fresh object -/
+inductive TKey (st0 : St) (obj : Nat) : Nat → List Nat → Nat → List Nat → Prop
+  | own (f : Nat) (path : List Nat) (tr : Nat) (key : List Nat) (v : Val) : path.contains tr = false → tr ≠ obj →
+      (Val.str key, v) ∈ st0.entries tr → TKey st0 obj (f + 1) path tr key
+  | sup (f : Nat) (path : List Nat) (tr r l sr : Nat) (key : List Nat) : path.contains tr = false → tr ≠ obj →
       mapLookup (st0.entries tr) (.str superName) = some (.list r l) → r < st0.lists.size →
-      Val.map sr ∈ st0.elems r l → TKey st0 obj f sr key → TKey st0 obj (f + 1) tr key
+      Val.map sr ∈ st0.elems r l → TKey st0 obj f (tr :: path) sr key → TKey st0 obj (f + 1) path tr key
 
 /-- what one `addSuperClasses` call guarantees -/
-structure AddResult (st0 : St) (obj f tr : Nat) (s s' : St) : Prop where
+structure AddResult (st0 : St) (obj f : Nat) (path : List Nat) (tr : Nat) (s s' : St) : Prop where
   filling : Filling st0 obj s'
   mono : ∀ key, hasKey (s.entries obj) (.str key) = true → hasKey (s'.entries obj) (.str key) = true
-  keys : ∀ key, TKey st0 obj f tr key → hasKey (s'.entries obj) (.str key) = true
-  ownWins : ∀ key v, tr ≠ obj → (Val.str key, v) ∈ st0.entries tr → isFunc v = false →
+  keys : ∀ key, TKey st0 obj f path tr key → hasKey (s'.entries obj) (.str key) = true
+  ownWins : ∀ key v, path.contains tr = false → tr ≠ obj → (Val.str key, v) ∈ st0.entries tr → isFunc v = false →
     (∀ k w, (k, w) ∈ st0.entries tr → keyEq k (.str key) = true → w = v) →
     mapLookup (s'.entries obj) (.str key) = some v
 
-theorem superLoop_keys (st0 : St) (obj f : Nat)
-    (ih : ∀ tr s s' res, Filling st0 obj s → runM (addSuperClasses f obj tr) s = (.ok res, s') → AddResult st0 obj f tr s s') :
+theorem superLoop_keys (st0 : St) (obj f : Nat) (path : List Nat)
+    (ih : ∀ tr s s' res, Filling st0 obj s → runM (addSuperClasses f obj path tr) s = (.ok res, s') → AddResult st0 obj f path tr s s') :
     ∀ (vs : List Val) (err : Option Sig) (acc : List Val) (s s' : St) (out : Option Sig × List Val),
-    Filling st0 obj s → runM (superLoop (addSuperClasses f obj) vs err acc) s = (.ok out, s') →
+    Filling st0 obj s → runM (superLoop (addSuperClasses f obj path) vs err acc) s = (.ok out, s') →
     Filling st0 obj s' ∧
     (∀ key, hasKey (s.entries obj) (.str key) = true → hasKey (s'.entries obj) (.str key) = true) ∧
-    (∀ sr key, Val.map sr ∈ vs → TKey st0 obj f sr key → hasKey (s'.entries obj) (.str key) = true) := by
+    (∀ sr key, Val.map sr ∈ vs → TKey st0 obj f path sr key → hasKey (s'.entries obj) (.str key) = true) := by
   intro vs
   induction vs with
   | nil =>
@@ -514,7 +517,7 @@ theorem superLoop_keys (st0 : St) (obj f : Nat)
     | map sr =>
       simp only [superLoop] at h
       rw [runM_bind] at h
-      cases hr : runM (addSuperClasses f obj sr) s with
+      cases hr : runM (addSuperClasses f obj path sr) s with
       | mk rr s1 =>
         rw [hr] at h
         cases rr with
@@ -544,14 +547,26 @@ theorem superLoop_keys (st0 : St) (obj f : Nat)
     "super" lists is a key of the object afterwards; keys never disappear; the template's own non-function property
     is what the object finally holds (own template over supers) -/
 theorem addSuperClasses_keys (st0 : St) (obj : Nat) (h0 : st0.backing 0 = []) (hsz : 0 < st0.lists.size) :
-    ∀ (f tr : Nat) (s s' : St) (res : Val × Option Sig), Filling st0 obj s →
-    runM (addSuperClasses f obj tr) s = (.ok res, s') → AddResult st0 obj f tr s s' := by
+    ∀ (f : Nat) (path : List Nat) (tr : Nat) (s s' : St) (res : Val × Option Sig), Filling st0 obj s →
+    runM (addSuperClasses f obj path tr) s = (.ok res, s') → AddResult st0 obj f path tr s s' := by
   intro f
   induction f with
-  | zero => intro tr s s' res _ h; simp [addSuperClasses, runM_throw] at h
+  | zero => intro path tr s s' res _ h; simp [addSuperClasses, runM_throw] at h
   | succ f ih =>
-    intro tr s s' res hf h
+    intro path tr s s' res hf h
     simp only [addSuperClasses] at h
+    cases hcyc : path.contains tr with
+    | true =>
+      simp only [hcyc, if_true, runM_pure] at h
+      injection h with _ h2; subst h2
+      refine ⟨hf, fun _ hk => hk, ?_, ?_⟩
+      · intro key hT
+        cases hT with
+        | own _ _ _ _ _ hp => rw [hcyc] at hp; cases hp
+        | sup _ _ _ _ _ _ _ hp => rw [hcyc] at hp; cases hp
+      · intro key v hp; rw [hcyc] at hp; cases hp
+    | false =>
+    simp only [hcyc, Bool.false_eq_true, if_false] at h
     rw [runM_bind, getMap_run] at h
     simp only at h
     rw [runM_bind] at h
@@ -559,24 +574,24 @@ theorem addSuperClasses_keys (st0 : St) (obj : Nat) (h0 : st0.backing 0 = []) (h
     have tail : ∀ (initSuper : List Val) (s1 s2 : St) (initFn : Val), Filling st0 obj s1 →
         (∀ key, hasKey (s.entries obj) (.str key) = true → hasKey (s1.entries obj) (.str key) = true) →
         (∀ r l sr key, mapLookup (s.entries tr) (.str superName) = some (.list r l) → Val.map sr ∈ s.elems r l →
-          TKey st0 obj f sr key → hasKey (s1.entries obj) (.str key) = true) →
+          TKey st0 obj f (tr :: path) sr key → hasKey (s1.entries obj) (.str key) = true) →
         runM (copyProps obj initSuper (s.entries tr) Val.null) s1 = (.ok initFn, s2) →
-        AddResult st0 obj (f + 1) tr s s2 := by
+        AddResult st0 obj (f + 1) path tr s s2 := by
       intro initSuper s1 s2 initFn f1 m1 k1 hc
       have f2 := copyProps_filling st0 obj h0 hsz initSuper _ _ _ s1 s2 f1 hc
       obtain ⟨_, m2, k2⟩ := copyProps_keys obj initSuper _ _ _ s1 s2 f1.1 hc
       refine ⟨f2, fun key hk => m2 key (m1 key hk), ?_, ?_⟩
       · intro key hT
         cases hT with
-        | own f' tr' key' v hne hmem =>
+        | own f' path' tr' key' v hp hne hmem =>
           rw [← hf.2.2.1 tr hne] at hmem
           exact k2 key v hmem
-        | sup f' tr' r l sr key' hne hlook hr hmem hT' =>
+        | sup f' path' tr' r l sr key' hp hne hlook hr hmem hT' =>
           rw [← hf.2.2.1 tr hne] at hlook
           have : s.elems r l = st0.elems r l := by simp only [St.elems, hf.2.2.2.1 r hr]
           rw [← this] at hmem
           exact m2 key (k1 r l sr key hlook hmem hT')
-      · intro key v hne hmem hv huniq
+      · intro key v _ hne hmem hv huniq
         rw [← hf.2.2.1 tr hne] at hmem huniq
         have := copyProps_value obj initSuper key v hv _ _ _ s1 s2 f1.1 huniq hc
         rw [this]
@@ -602,13 +617,13 @@ theorem addSuperClasses_keys (st0 : St) (obj : Nat) (h0 : st0.backing 0 = []) (h
         simp only [hm] at h
         rw [runM_bind, getList_run] at h
         simp only at h
-        cases hs : runM (superLoop (addSuperClasses f obj) (s.elems r l) none []) s with
+        cases hs : runM (superLoop (addSuperClasses f obj (tr :: path)) (s.elems r l) none []) s with
         | mk rs s1 =>
           rw [hs] at h
           cases rs with
           | error e => simp at h
           | ok out =>
-            obtain ⟨g1, g2, g3⟩ := superLoop_keys st0 obj f ih (s.elems r l) none [] s s1 out hf hs
+            obtain ⟨g1, g2, g3⟩ := superLoop_keys st0 obj f (tr :: path) (ih (tr :: path)) (s.elems r l) none [] s s1 out hf hs
             obtain ⟨err, initSuper⟩ := out
             simp only at h
             rw [runM_bind] at h
